@@ -124,9 +124,11 @@ namespace Dune
         AllocationInfo ai(typeid(T));
         ai.size = n;
         ai.capacity = n * sizeof(T);
-        ai.pages = (ai.capacity) / page_size + 2;
         ai.not_free = true;
         size_type overlap = ai.capacity % page_size;
+        // full data pages, a partially used first page if the size is not a
+        // multiple of the page size, and the guard page
+        ai.pages = (ai.capacity) / page_size + (overlap ? 2 : 1);
         ai.page_ptr = mmap(NULL, ai.pages * page_size,
                            PROT_READ | PROT_WRITE,
 #ifdef __APPLE__
@@ -139,7 +141,7 @@ namespace Dune
         {
           throw std::bad_alloc();
         }
-        ai.ptr = static_cast<char*>(ai.page_ptr) + page_size - overlap;
+        ai.ptr = static_cast<char*>(ai.page_ptr) + (overlap ? page_size - overlap : 0);
         // write protect memory behind the actual data
         memprotect(static_cast<char*>(ai.page_ptr) + (ai.pages-1) * page_size,
                    page_size,
